@@ -9,11 +9,11 @@ open CoreBGP CoreBGP.Model
 
 /-! ## big-endian helpers -/
 
-theorem be16_toNat (a b : UInt8) : (be16 a b).toNat = Spec.n16 a b := by
+theorem be16_toNat_ud (a b : UInt8) : (be16 a b).toNat = Spec.n16 a b := by
   simp only [be16, Spec.n16, UInt16.toNat_ofNat']
   have := a.toNat_lt; have := b.toNat_lt; omega
 
-theorem u16_n16 (a b : UInt8) : Spec.u16 (Spec.n16 a b) = [a, b] := by
+theorem u16_n16_ud (a b : UInt8) : Spec.u16 (Spec.n16 a b) = [a, b] := by
   have ha := a.toNat_lt; have hb := b.toNat_lt
   have h1 : (a.toNat * 256 + b.toNat) / 256 = a.toNat := by omega
   have h2 : (a.toNat * 256 + b.toNat) % 256 = b.toNat := by omega
@@ -169,7 +169,7 @@ theorem partition_reconstruct (b w a n : Bytes) (h : Spec.partition b = some (w,
             rw [List.length_take]; omega
           have ha : (List.take (Spec.n16 p1 p2) r2).length = Spec.n16 p1 p2 := by
             rw [List.length_take]; omega
-          rw [hw, ha, u16_n16, u16_n16]
+          rw [hw, ha, u16_n16_ud, u16_n16_ud]
           refine ⟨?_, n16_le _ _, n16_le _ _⟩
           have : r1 = List.take (Spec.n16 w1 w2) r1 ++ List.drop (Spec.n16 w1 w2) r1 := (List.take_append_drop _ _).symm
           conv => rhs; rw [this, hd]
@@ -201,7 +201,7 @@ theorem attrs_reconstruct : ∀ (fuel : Nat) (b : Bytes),
             have hl : (List.take (Spec.n16 l1 l2) v).length = Spec.n16 l1 l2 := by
               rw [List.length_take]; omega
             have := ih (List.drop (Spec.n16 l1 l2) v)
-            simp only [List.map_cons, List.flatten_cons, Spec.attrWire, hx, if_true, hl, u16_n16,
+            simp only [List.map_cons, List.flatten_cons, Spec.attrWire, hx, if_true, hl, u16_n16_ud,
               List.append_assoc, this]
             simp [List.take_append_drop]
         · simp
@@ -308,11 +308,11 @@ theorem loop_eq_loopOn (cb : Callbacks) : ∀ (fuel : Nat) (b : Bytes) (st : PAS
         | [l1], _ => simp [pathAttrsLoop, Spec.attrs, loopOn, junkCode, flagExtendedLen, hx]
         | l1 :: l2 :: v, h =>
           by_cases hlen : v.length < Spec.n16 l1 l2
-          · simp [pathAttrsLoop, Spec.attrs, loopOn, junkCode, flagExtendedLen, hx, be16_toNat, hlen]
+          · simp [pathAttrsLoop, Spec.attrs, loopOn, junkCode, flagExtendedLen, hx, be16_toNat_ud, hlen]
           · simp only [List.length_cons] at h
             have hr : ∀ st, pathAttrsLoop cb fuel (List.drop (Spec.n16 l1 l2) v) st = _ :=
               fun st => ih (List.drop (Spec.n16 l1 l2) v) st (by rw [List.length_drop]; omega)
-            simp only [pathAttrsLoop, Spec.attrs, flagExtendedLen, hx, decide_true, if_true, be16_toNat, hlen, if_false,
+            simp only [pathAttrsLoop, Spec.attrs, flagExtendedLen, hx, decide_true, if_true, be16_toNat_ud, hlen, if_false,
               loopOn, Gen.PATH_ATTR_MP_REACH_NLRI, Gen.PATH_ATTR_MP_UNREACH_NLRI, malformedAttrList, attrCall, hr]
             rfl
       · match rest, h with
@@ -388,7 +388,7 @@ theorem decodeUpdate_eq (cb : Callbacks) (b : Bytes) :
     · simp only [List.length_cons] at h4
       simp only [decodeUpdate, List.length_cons, h4, if_true]
     · simp only [List.length_cons] at h4
-      simp only [decodeUpdate, List.length_cons, h4, if_false, Spec.partition, be16_toNat]
+      simp only [decodeUpdate, List.length_cons, h4, if_false, Spec.partition, be16_toNat_ud]
       by_cases hlen : r1.length < Spec.n16 w1 w2 + 2
       · simp [hlen]
       · simp only [hlen, if_false]
